@@ -267,7 +267,7 @@ func check(c *core.Ctx, t *opspace.Transition) {
 		return
 	}
 	op, res := t.Step.Op, t.Res
-	hooks := hooksOfPath(t.Path)
+	hooks := normHooks(hooksOfPath(t.Path))
 	if len(hooks) == 0 {
 		return
 	}
@@ -344,6 +344,33 @@ func check(c *core.Ctx, t *opspace.Transition) {
 	}
 	if len(r.Ran) > 0 && after[r.Ran[0]] {
 		c.Floor("policy:kept")
+	}
+	// spellings of the list-valued annotations that are exercised
+	for _, raw := range hooksOfPath(t.Path) {
+		decorated := func(xs []string) bool {
+			for _, x := range xs {
+				if x != strings.TrimSpace(x) {
+					return true
+				}
+			}
+			return false
+		}
+		if decorated(raw.Events) && has(r.Ran, raw.Name) {
+			c.Floor("spelling:event-list-with-blanks")
+		}
+		if !decorated(raw.Policies) {
+			continue
+		}
+		c.Floor("spelling:policy-list-with-blanks")
+		np := normHooks([]hx.HookSpec{raw})[0].Policies
+		for i, tok := range exp {
+			if verbOf(tok) == "DELETE" && hookOf(tok) == raw.Name {
+				base := strings.SplitN(why[i], "/", 2)[0]
+				if len(np) > 1 && np[0] != base && has(np, base) {
+					c.Floor("spelling:policy-not-first-decides")
+				}
+			}
+		}
 	}
 	switch {
 	case r.How == "create-conflict":
